@@ -141,4 +141,24 @@ Module GrpTT.
       + intros s a s' (I & J & P) H. eapply mu_step; eauto.
       + intros s (I & J & P) Hs. eapply stuck_final; eauto.
   Qed.
+
+  (* The partition-number watcher (loopCheckPartitionNumbers) is the goroutine that turns c.closed into the end of the
+     session when no claim ends by itself (empty assignment; handlers that wait for the session context): while
+     Consume waits for the session context the watcher is alive or the context is already cancelled; a watcher that
+     has returned has cancelled the context; consume goroutines exist only in a session whose watcher was started;
+     and a watcher waiting in its select leaves as soon as c.closed is closed (the `case <-c.closed` arm). *)
+  Theorem group_watcher : forall c s, elock c = true -> Reach (step c) (init c) s ->
+    (cc s = CWaitCtx -> ctx_done s = true \/ lc s = LcNet \/ lc s = LcSel \/ lc s = LcExit) /\
+    (lc s = LcDone -> ctx_done s = true) /\
+    (1 <= n_start s + n_new s + n_run s + n_wait s + n_he s + n_defer s -> lc s <> LcNone) /\
+    (lc s = LcSel -> closed_ch s = true -> exists s', step c s ALStop = Some s' /\ lc s' = LcExit).
+  Proof.
+    intros c s E R. destruct (reach_inv12 c s E R) as [I J]. destruct J as [J1 J2 J3 J4 J5 J6].
+    pose proof (l_spec3 (lc s)). pose proof (b2n_le1 (ctx_done s)). unfold claims in J6.
+    repeat split.
+    - intro D. rewrite D in *. cbn in *. destruct (ctx_done s); auto. destruct (lc s); cbn in *; auto; lia.
+    - intro D. rewrite D in *. cbn in *. destruct (ctx_done s); auto. cbn in *. lia.
+    - intros D N. specialize (J6 D). rewrite N in *. cbn in *. lia.
+    - intros D P. cbn. rewrite D, P. rewrite orb_true_r. eexists. split; [reflexivity|]. reflexivity.
+  Qed.
 End GrpTT.
